@@ -28,6 +28,25 @@ Theorem C02_lit_wrapper : forall e l,
   /\ eval_view e (gen_view (PLit l)) = lit_display l.
 Proof. exact lit_wrapper_agree. Qed.
 
+(** literal keys, for EVERY printing function [show_lit] (canonically Rust's `{}` of the parsed bool / u64 / i64 /
+    f64): the view, string, display and const flavours of a LitWrapper key, and the view / string / display
+    back-ends of a zero-field builder (mixed literal types), all print the literal with that one function *)
+Theorem C02_literals_agree : forall (show_lit : lit -> str) e l,
+  eval_view e (lw_into_view show_lit l) = show_lit l
+  /\ lw_build_string show_lit l = show_lit l
+  /\ lw_build_display show_lit l = show_lit l
+  /\ lw_inner show_lit l = show_lit l
+  /\ eval_view e (lit_token_view show_lit l) = show_lit l
+  /\ eval_string e (lit_token_string show_lit l) = show_lit l
+  /\ eval_display e (lit_token_string show_lit l) = show_lit l.
+Proof. exact literals_agree. Qed.
+
+(** the generators modelled above are the instance show_lit := lit_display *)
+Theorem C02_literals_instance : forall l,
+  gen_view (PLit l) = lit_token_view lit_display l /\ gen_string (PLit l) = lit_token_string lit_display l
+  /\ lit_into_view l = lw_into_view lit_display l.
+Proof. exact literal_tokens_instance. Qed.
+
 (** scoping changes neither the locale read nor the value reached: keys (scope ctx p) . q = keys ctx . (p ++ q) *)
 Theorem C02_scope_transparent : forall (L A : Type) (trees : L -> ktree A) (c : scoped L) (p q : list str),
   sc_locale (scope c p) = sc_locale c
